@@ -47,7 +47,23 @@ pub fn runs_for(_prop: &str, tier: Tier) -> u64 {
 
 // ---------------------------------------------------------------- generation
 
-const METER_TYPES: [&str; 40] = [
+const PAIRS: [(&str, &str); 12] = [
+    ("BtA", "BtB"),
+    ("BtB", "BtA"),
+    ("BtC", "BtD"),
+    ("BtD", "BtC"),
+    ("Vec<BtA>", "Vec<BtB>"),
+    ("Option<SmallCfg>", "Option<WideCfg>"),
+    ("Vec<Option<SmallCfg>>", "Vec<Option<WideCfg>>"),
+    ("SmallCfg", "Option<WideCfg>"),
+    ("RecV2", "RecV3"),
+    ("RecV1", "RecV2"),
+    ("(Nat,String,u8)", "(Int,Option<String>)"),
+    ("Option<VarV2>", "Option<VarV1>"),
+];
+
+const METER_TYPES: [&str; 49] = [
+    "BtA", "BtB", "BtC", "BtD", "SmallCfg", "WideCfg", "Option<WideCfg>", "Wide", "Vec<Box<u64>>",
     "Vec<()>", "Vec<Reserved>", "Vec<Unit0>", "Vec<u8>", "Vec<Nat>", "Vec<Int>", "Vec<String>", "Vec<Option<Nat>>", "BTreeMap<String,Nat>", "BTreeMap<String,Int>", "BTreeMap<Nat,Nat>", "BTreeMap<Int,Nat>", "BTreeMap<String,S1>", "S1", "S2", "E1", "RecV1", "RecV2",
     "RecV3", "Option<VarV1>", "Option<VarV2>", "(Nat,String,u8)", "(Int,Option<String>)", "FuncRef", "ServRef", "Principal", "List", "Rose", "Expr", "Vec<List>", "ByteBuf", "Bytes1", "Vec<Vec<u8>>", "Vec<(Nat,Int)>", "HashMap<String,Nat>", "Vec<f64>", "Vec<bool>",
     "Vec<u64>", "Option<Option<Nat>>", "Result<Nat,String>",
@@ -64,15 +80,34 @@ pub fn generate(_prop: &str, _tier: Tier, seed: u64, run: u64) -> Sc {
         if wl.chance(1, 2) {
             // native
             let corp = corpus::corpus();
-            let sender = if wl.chance(2, 3) { wl.pick(&METER_TYPES).to_string() } else { corp[wl.usize(corp.len())].name.clone() };
-            let receiver = match wl.below(4) {
-                0 | 1 => sender.clone(),
-                2 => wl.pick(&METER_TYPES).to_string(),
-                _ => corp[wl.usize(corp.len())].name.clone(),
+            let (sender, receiver) = if wl.chance(1, 5) {
+                let (a, b) = *wl.pick(&PAIRS);
+                (a.to_string(), b.to_string())
+            } else {
+                let sender = if wl.chance(2, 3) { wl.pick(&METER_TYPES).to_string() } else { corp[wl.usize(corp.len())].name.clone() };
+                let receiver = match wl.below(4) {
+                    0 | 1 => sender.clone(),
+                    2 => wl.pick(&METER_TYPES).to_string(),
+                    _ => corp[wl.usize(corp.len())].name.clone(),
+                };
+                (sender, receiver)
             };
             let extra = if wl.chance(1, 3) { Some(wl.pick(&METER_TYPES).to_string()) } else { None };
             let size = if wl.chance(1, 4) { wl.range(15, 60) } else { wl.range(0, 14) } as usize;
             cases.push(Case::Native { sender, receiver, vseed: wl.next_u64(), size, extra });
+        } else if wl.chance(1, 8) {
+            // a cheap wire value under opt against a wide expected record: the typed attempt walks
+            // many expected-only optional fields before it meets the mismatch and back-tracks
+            let n = wl.range(3, 40) as u32;
+            let key = SLabel::Id(1000 + wl.below(5) as u32);
+            let wire = SType::opt(SType::record(vec![(key.clone(), SType::Prim(Prim::Text))]));
+            let mut fs: Vec<(SLabel, SType)> = (0..n).map(|i| (SLabel::Id(i), SType::opt(SType::Prim(Prim::Nat)))).collect();
+            fs.push((key.clone(), SType::Prim(Prim::Nat)));
+            let expect = SType::opt(SType::record(fs));
+            let val = AV::some(AV::Record(vec![(key.id(), AV::Text(gen_text(&mut wl)))]));
+            let tail_t = SType::vec(SType::Prim(Prim::Nat64));
+            let tail_v = AV::Vec((0..wl.range(0, 30)).map(|_| AV::NatN(64, wl.next_u64())).collect());
+            cases.push(Case::Untyped { env: SEnv::new(), wire: vec![wire, tail_t.clone()], expect: vec![expect, tail_t], vals: vec![val, tail_v] });
         } else {
             let mut k = TyKnobs::draw(&mut knobs);
             k.allow_empty = false;
@@ -161,6 +196,80 @@ fn model_cost(env: &SEnv, v: &AV, t: &SType, table_len: f64) -> f64 {
     }
 }
 
+#[derive(Default, Debug)]
+struct Walk {
+    /// documented-model cost of what the receiver materialises
+    m: f64,
+    /// documented-model cost of what the receiver skips (surplus fields, contents of options that came back null, values read at reserved)
+    s: f64,
+    /// options whose content was on the wire but came back null (back-tracking)
+    bt: f64,
+    /// expected-only fields filled with null
+    absent: f64,
+}
+
+/// Walk the wire value along the decoded value: which parts were materialised, which skipped?
+fn walk(env: &SEnv, wv: &AV, wt: &SType, dv: &AV, tl: f64, w: &mut Walk) {
+    let wt = env.unfold(wt);
+    match (wv, wt, dv) {
+        (AV::Reserved, _, AV::Reserved) => w.m += 1.0,
+        (_, _, AV::Reserved) => w.s += model_cost(env, wv, wt, tl),
+        (AV::Opt(Some(x)), SType::Opt(it), AV::Opt(Some(y))) => {
+            w.m += 2.0;
+            walk(env, x, it, y, tl, w);
+        }
+        (AV::Opt(Some(x)), SType::Opt(it), AV::Opt(None)) => {
+            w.m += 2.0;
+            w.bt += 1.0;
+            // the typed attempt may have consumed up to the whole content before failing
+            w.m += model_cost(env, x, it, tl);
+            w.s += model_cost(env, x, it, tl);
+        }
+        (AV::Opt(None), _, _) | (AV::Null, _, AV::Opt(None)) | (AV::Null, _, AV::Null) => w.m += 2.0,
+        (x, _, AV::Opt(Some(y))) if !matches!(x, AV::Opt(_)) => {
+            w.m += 2.0;
+            walk(env, x, wt, y, tl, w);
+        }
+        (x, _, AV::Opt(None)) if !matches!(x, AV::Opt(_)) => {
+            w.m += 2.0;
+            w.bt += 1.0;
+            w.m += model_cost(env, x, wt, tl);
+            w.s += model_cost(env, x, wt, tl);
+        }
+        (AV::Vec(xs), SType::Vec(it), AV::Vec(ys)) if xs.len() == ys.len() => {
+            w.m += 2.0 + 3.0 * xs.len() as f64;
+            for (x, y) in xs.iter().zip(ys.iter()) {
+                walk(env, x, it, y, tl, w);
+            }
+        }
+        (AV::Record(fs), SType::Record(ts), AV::Record(gs)) => {
+            w.m += 2.0;
+            for ((id, x), (l, ft)) in fs.iter().zip(ts.iter()) {
+                match gs.iter().find(|(j, _)| j == id) {
+                    Some((_, y)) => {
+                        w.m += 7.0 + label_len(l);
+                        walk(env, x, ft, y, tl, w);
+                    }
+                    None => w.s += 7.0 + label_len(l) + model_cost(env, x, ft, tl),
+                }
+            }
+            for (j, _) in gs {
+                if !fs.iter().any(|(id, _)| id == j) {
+                    w.absent += 1.0;
+                }
+            }
+        }
+        (AV::Variant(i, x), SType::Variant(ts), AV::Variant(j, y)) if i == j => match ts.iter().find(|(l, _)| l.id() == *i) {
+            Some((l, ft)) => {
+                w.m += 7.0 + label_len(l);
+                walk(env, x, ft, y, tl, w);
+            }
+            None => w.m += model_cost(env, wv, wt, tl),
+        },
+        _ => w.m += model_cost(env, wv, wt, tl),
+    }
+}
+
 /// nodes of the wire value that the receiver certainly skips: surplus record fields
 fn surely_skipped(env: &SEnv, v: &AV, wt: &SType, et: &SType) -> usize {
     let (wt, et) = (env.unfold(wt), env.unfold(et));
@@ -208,6 +317,8 @@ impl Local {
 }
 
 const BIG: usize = 1 << 60;
+/// marker: this quota is not configured
+const NONE: usize = usize::MAX;
 
 #[derive(Clone, Debug, PartialEq)]
 enum Res {
@@ -273,6 +384,14 @@ fn is_quota_error(e: &str) -> bool {
 fn check_case(l: &mut Local, case: &Case, qrng: &mut Rng, log: bool) {
     // ---- build the honest message
     let (bytes, n_nodes, desc, identity, model, skip_lb): (Vec<u8>, usize, String, bool, Option<f64>, usize);
+    // for the walk: environment, (wire type, wire value) per argument, header length, table length, untyped API?, order preserving?
+    let mut wenv = SEnv::new();
+    let mut wargs: Vec<(SType, AV)> = Vec::new();
+    let (mut hdr, mut tlen) = (0.0f64, 0.0f64);
+    let untyped_api = matches!(case, Case::Untyped { .. });
+    let mut order_preserving = true;
+    // size of the expected types: the work of a typed attempt that fails and back-tracks is bounded by it
+    let mut et_nodes = 0.0f64;
     let mut recv = None;
     let mut tenv = TypeEnv::new();
     let mut ttys = Vec::new();
@@ -300,6 +419,11 @@ fn check_case(l: &mut Local, case: &Case, qrng: &mut Rng, log: bool) {
             let header = crate::models::rd::parse(&bytes).map(|p| p.header_len).unwrap_or(0) as f64;
             model = if identity { Some(4.0 * header + 50.0 * vals.iter().zip(wire.iter()).map(|(v, t)| model_cost(env, v, t, table_len)).sum::<f64>()) } else { None };
             skip_lb = n_nodes; // everything counts towards the skipping quota in the untyped API
+            wenv = env.clone();
+            et_nodes = expect.iter().map(|t| t.nodes() as f64).sum::<f64>() + env.0.values().map(|t| t.nodes() as f64).sum::<f64>();
+            wargs = wire.iter().cloned().zip(vals.iter().cloned()).collect();
+            hdr = header;
+            tlen = table_len;
         }
         Case::Native { sender, receiver, vseed, size, extra } => {
             let (Some(s), Some(r)) = (corpus::find(sender), corpus::find(receiver)) else { return };
@@ -343,6 +467,17 @@ fn check_case(l: &mut Local, case: &Case, qrng: &mut Rng, log: bool) {
             model = if identity && !senv.mentions(&st, Prim::Reserved) { Some(4.0 * header + model_cost(&senv, &(s.av)(v.as_ref(), false), &st, table_len)) } else { None };
             let mut renv = senv.clone();
             let rt = (r.sim_type)(&mut renv);
+            wenv = senv.clone();
+            wargs.push((st.clone(), (s.av)(v.as_ref(), false)));
+            hdr = header;
+            tlen = table_len;
+            let unordered = |n: &str| n.contains("Hash") || n.contains("BTreeSet") || n.contains("BTreeMap") || n.contains("Reserved");
+            order_preserving = (!(unordered(sender) || unordered(receiver)) || sender == receiver) && !sender.contains("Reserved") && !receiver.contains("Reserved");
+            et_nodes = rt.nodes() as f64 + renv.0.values().map(|t| t.nodes() as f64).sum::<f64>();
+            if let Some(x) = extra.as_ref().and_then(|n| corpus::find(n)) {
+                // the surplus argument is skipped entirely; its model cost is added below through n_extra
+                let _ = x;
+            }
             skip_lb = extra_nodes + if gfp::subtype(&renv, &st, &rt) { surely_skipped(&renv, &(s.av)(v.as_ref(), false), &st, &rt) } else { 0 };
         }
     }
@@ -414,6 +549,39 @@ fn check_case(l: &mut Local, case: &Case, qrng: &mut Rng, log: bool) {
             l.v("cost-within-documented-model", key.clone(), format!("decoding cost {cd} is {ratio:.1}x the documented model ({m:.0}); a quota sized from the model would reject this honest message"));
         }
     }
+    // ---- 5b. bounds from walking the wire value along the decoded value (which parts were skipped?)
+    if let (Res::Ok(decoded), true) = (&r0, order_preserving) {
+        let mut w = Walk::default();
+        for (i, (wt, wv)) in wargs.iter().enumerate() {
+            match decoded.get(i) {
+                Some(dv) => walk(&wenv, wv, wt, dv, tlen, &mut w),
+                None => w.s += model_cost(&wenv, wv, wt, tlen), // surplus argument
+            }
+        }
+        // native surplus argument (not part of wargs): bounded through the node count
+        let extra_s = if let Case::Native { extra: Some(_), .. } = case { (n_nodes as f64) * 40.0 } else { 0.0 };
+        let (m_model, s_model) = if untyped_api { (0.0, w.m + w.s) } else { (w.m, w.s) };
+        let mult = if untyped_api { 50.0 } else { 1.0 };
+        // a failed typed attempt may have walked the expected type (expected-only optional fields) before back-tracking
+        let attempt = 8.0 * et_nodes * w.bt;
+        let s_bound = if untyped_api { f64::INFINITY } else { K_MODEL * (s_model + extra_s) + 10.0 * w.bt + 60.0 };
+        let d_bound = K_MODEL * (4.0 * hdr + m_model + 50.0 * (s_model + extra_s) + 10.0 * w.bt + mult * (attempt + 8.0 * w.absent)) + 60.0;
+        l.max("skip_cost_over_skipped_model", cs as f64 / (s_model + extra_s + 1.0));
+        if (cs as f64) > s_bound {
+            l.v(
+                "materialised-data-not-charged-to-skipping-quota",
+                key.clone(),
+                format!("skipping cost {cs} although the documented model of what was skipped (surplus fields/arguments, contents of options that came back null) is only {s_model:.0}: data that was materialised is being charged to the skipping quota"),
+            );
+        }
+        if (cd as f64) > d_bound {
+            l.v(
+                "cost-within-documented-model",
+                key.clone(),
+                format!("decoding cost {cd} exceeds {K_MODEL} x the documented model (header {hdr:.0}x4 + materialised {m_model:.0} + 50 x skipped {s_model:.0} + {} back-tracks)", w.bt),
+            );
+        }
+    }
     // ---- 3. enumerate abort points
     let expect_ok = |qd: usize, qs: usize| qd >= cd && qs >= cs;
     let mut points: Vec<(usize, usize)> = Vec::new();
@@ -441,6 +609,19 @@ fn check_case(l: &mut Local, case: &Case, qrng: &mut Rng, log: bool) {
             points.push((qd, qs));
         }
     }
+    // only one of the two quotas set (NONE = the other quota is not configured at all)
+    for q in ad.iter().rev().take(3).chain(ad.iter().take(2)) {
+        points.push((*q, NONE));
+    }
+    for q in as_.iter().rev().take(3).chain(as_.iter().take(2)) {
+        points.push((NONE, *q));
+    }
+    if cs > 2 {
+        points.push((NONE, cs / 2));
+    }
+    if cd > 2 {
+        points.push((cd / 2, NONE));
+    }
     if full_d && full_s {
         l.exhaustive_msgs += 1;
     } else {
@@ -448,8 +629,10 @@ fn check_case(l: &mut Local, case: &Case, qrng: &mut Rng, log: bool) {
     }
     for (qd, qs) in points {
         l.abort_points += 1;
-        let (r, rd, rs) = dec.run(Some(qd), Some(qs));
-        let want_ok = expect_ok(qd, qs);
+        let opt = |q: usize| if q == NONE { None } else { Some(q) };
+        let (r, rd, rs) = dec.run(opt(qd), opt(qs));
+        let want_ok = (qd == NONE || qd >= cd) && (qs == NONE || qs >= cs);
+        let _ = &expect_ok;
         match r {
             Res::Panic(m) => {
                 l.v("decode-no-panic", format!("{desc}@{}", panic_key(&m)), format!("decode with quotas {qd}/{qs} panicked: {m}; {key}"));
@@ -464,7 +647,7 @@ fn check_case(l: &mut Local, case: &Case, qrng: &mut Rng, log: bool) {
                     l.v("quota-never-changes-result", key.clone(), format!("with quotas {}/{} the decode returned a different value", show_q(qd), show_q(qs)));
                     return;
                 }
-                if rd != Some(cd) || rs != Some(cs) {
+                if (qd != NONE && rd != Some(cd)) || (qs != NONE && rs != Some(cs)) {
                     l.v("cost-independent-of-quota", key.clone(), format!("reported cost {rd:?}/{rs:?} with quotas {}/{}, but {cd}/{cs} with large quotas", show_q(qd), show_q(qs)));
                     return;
                 }
@@ -485,7 +668,9 @@ fn check_case(l: &mut Local, case: &Case, qrng: &mut Rng, log: bool) {
 }
 
 fn show_q(q: usize) -> String {
-    if q == BIG {
+    if q == NONE {
+        "unset".into()
+    } else if q == BIG {
         "2^60".into()
     } else {
         q.to_string()
